@@ -31,7 +31,7 @@ FLOORS["thorough"].update({'timeouts_by_class_constructor': 20000, 'chained_trig
 PROFILE = {"weights": {"timeout": 6, "zero": 2, "wait": 2, "succeed": 2, "fail": 0.5, "spawn": 2, "join": 2,
                        "interrupt": 3, "cb": 0.5, "cond": 0, "cbint": 0.3, "chain": 0.2},
            "max_top": 5, "max_child_scripts": 3, "max_ev": 3, "p_exact": 0.7, "p_raise": 0.05, "p_catch": 0.85,
-           "t0": [0, 0, 0, 5, 2.5]}
+           "t0": [0, 0, 0, 5, 2.5], "p_rational": 0.06}
 
 
 def plan(tier):
@@ -158,7 +158,7 @@ def make_case(rng):
     prog = kern.gen_program(rng, PROFILE)
     K = kern.RealK.load()
     pre = kern.run_on(speckernel.K, prog)       # instants at which something is due
-    stops = pick_stops(rng, [e[0] for e in pre.tape], prog["t0"])
+    stops = pick_stops(rng, [e[0] for e in pre.tape], prog["t0"]) if prog["flavour"] != "rational" else []
     return {"program": prog, "stops": stops}
 
 
